@@ -190,7 +190,9 @@ def blocks_task(spec):
 
     def sample(res):
         ex, st = res.ex, res.ex.st
-        mdl = ex.model()
+        mdl = getattr(ex, 'cex_model', None)
+        if mdl is None:
+            mdl = ex.model()
         if mdl is None:
             return None, None
         head, cmds, _ = reader_script(mdl, st, op, None)
@@ -322,8 +324,10 @@ def blocks_task(spec):
         bad = tally.prove_all(ex, [(O(n_), f) for n_, f in pairs])
         for oid, m_ in bad.items():
             if m_ != 'unknown':
+                ex.cex_model = m_
                 short = oid.rsplit('.', 1)[-1]
                 candidate("cc:%s:%s" % (op, short), oid, DESC.get(short, short), res)
+        ex.cex_model = None
         if len(samples) < want_samples and (pathno[0] + spec.get('seed', 0)) % spec.get('stride', 1) == 0:
             s_, _ = sample(res)
             if s_ is not None:
@@ -393,7 +397,9 @@ def header_task(spec):
 
     def sample(res):
         ex, st = res.ex, res.ex.st
-        mdl = ex.model()
+        mdl = getattr(ex, 'cex_model', None)
+        if mdl is None:
+            mdl = ex.model()
         if mdl is None:
             return None, None
         head, cmds, _ = reader_script(mdl, st, 'ReadHeader', None)
@@ -492,6 +498,7 @@ def header_task(spec):
             if r is not None and r != 'unknown':
                 candidate("cc:ReadHeader:late-or-spurious-reject", O('reject-before-body'),
                           "ReadHeader throws on a good header or after consuming bytes beyond magic+version", res)
+        ex.cex_model = None
         if len(samples) < want_samples and (pathno[0] + spec.get('seed', 0)) % spec.get('stride', 1) == 0:
             s_, _ = sample(res)
             if s_ is not None:
